@@ -498,7 +498,7 @@ Proof.
     intros vr i vr' A P AG D v E; cbn [ast_to_ir] in A.
   - injection A as <- <-. cbn in E. injection E as <-.
     split; [eexists; split; reflexivity | split; [exact I | reflexivity]].
-  - injection A as <- <-. cbn in E. injection E as <-.
+  - injection A as <- <-. cbn in E. destruct (sf_finite f); [| discriminate]. injection E as <-.
     split; [eexists; split; reflexivity | split; [exact I | reflexivity]].
   - destruct (rho0 s) as [v0 |]; [| discriminate]. destruct (admit_compile T v0); [| discriminate].
     assert (G : exists k, i = IVar (vname k) /\ nth_error final k = Some s).
@@ -639,7 +639,7 @@ Proof. intros [v | |]; cbn; [exists v; split; reflexivity | reflexivity | exact 
 Definition memo_of (T : tables) (e : expr) (m : option compiled) : Prop := exists rho0, m = compile T rho0 e.
 
 Lemma site_interp : forall T, tables_ok T = true -> forall e rho m,
-  memo_of T e m -> d5 rho e = true -> res_agree (site T true m rho e) (interp rho e).
+  memo_of T e m -> d5 rho e = true -> res_agree (site T true true m rho e) (interp rho e).
 Proof.
   intros T TOK e rho m [rho0 ->] D. unfold site.
   destruct (compile T rho0 e) as [c |] eqn:C; [| apply res_agree_refl].
@@ -650,7 +650,7 @@ Qed.
 Lemma history_interp : forall T, tables_ok T = true -> forall e h memo,
   match memo with None => True | Some m => memo_of T e m end ->
   Forall (fun rho => d5 rho e = true) h ->
-  Forall2 res_agree (run_history T true memo e h) (map (fun rho => interp rho e) h).
+  Forall2 res_agree (run_history T true true memo e h) (map (fun rho => interp rho e) h).
 Proof.
   intros T TOK e h. induction h as [| rho h IH]; intros memo V F; cbn; [constructor |].
   inversion F as [| ? ? D F']; subst.
@@ -659,8 +659,15 @@ Proof.
   constructor; [apply site_interp; assumption | apply IH; assumption].
 Qed.
 
+(* the history theorem rests on compile being a function of its arguments: `stateless` is the regenerated
+   flag saying compile_expr / compile_expr_ir keep no cache across calls *)
+Lemma history_stateless : forall T (stateless : bool), stateless = true -> tables_ok T = true -> forall e h,
+  Forall (fun rho => d5 rho e = true) h ->
+  Forall2 res_agree (run_history T true true None e h) (map (fun rho => interp rho e) h).
+Proof. intros T st _ TOK e h F. exact (history_interp T TOK e h None I F). Qed.
+
 (* T5.fallback *)
-Lemma site_fallback : forall T g c rho e, run_compiled T g c rho = Err -> site T g (Some c) rho e = interp rho e.
+Lemma site_fallback : forall T g c rho e, run_compiled T g c rho = Err -> site T g true (Some c) rho e = interp rho e.
 Proof. intros T g c rho e H. unfold site. rewrite H. reflexivity. Qed.
 
 Lemma guard_rejects : forall T c rho vs,
